@@ -202,3 +202,148 @@ def obligations(ctx):
                                  presence_combos(WITNESS_SET, "thorough"), witness_setup, skip_roundtrip=("plutus_scripts",),
                                  note="Plutus scripts (keys 3/6/7 by language) are only checked for presence.")
     ob.finish(agg, lambda m, info=None: ("e2n_c01_struct_roundtrip", []))
+    ob, agg, covered, skipped = generic_roundtrip(ctx, GENERIC_TYPES, "c01_e2_generic_struct_roundtrip", claim=set(MUST_COVER))
+    # a type that used to be covered and no longer executes is reported, never silently dropped
+    missing = [t for t in MUST_COVER if not any(c.startswith(t + "(") for c in covered)]
+    if missing:
+        ob.fail("types expected to be covered could not be executed: %s" % {t: skipped.get(t, "?") for t in missing})
+    ob.finish(agg)
+
+
+# ---------------------------------------------------------------- generic token-level round trip of struct-level codecs
+MUST_COVER = ['TransactionInput', 'ExUnits', 'UnitInterval', 'ExUnitPrices', 'ProtocolVersion', 'Redeemer', 'ConstrPlutusData', 'Vkeywitness', 'BootstrapWitness', 'Anchor', 'GovernanceActionId', 'VotingProcedure', 'PoolMetadata', 'Update', 'TransactionUnspentOutput', 'StakeDelegation', 'PoolRegistration', 'PoolRetirement', 'GenesisKeyDelegation', 'MoveInstantaneousRewardsCert', 'CommitteeHotAuth', 'CommitteeColdResign', 'DRepRegistration', 'DRepDeregistration', 'DRepUpdate', 'StakeAndVoteDelegation', 'StakeRegistrationAndDelegation', 'StakeVoteRegistrationAndDelegation', 'VoteDelegation', 'VoteRegistrationAndDelegation', 'VotingProposal', 'ParameterChangeAction', 'HardForkInitiationAction', 'TreasuryWithdrawalsAction', 'NoConfidenceAction', 'NewConstitutionAction', 'InfoAction', 'Constitution', 'Transaction', 'SingleHostAddr', 'SingleHostName', 'MultiHostName', 'PoolParams', 'DataOption', 'ScriptRef', 'Header', 'OperationalCert', 'TimelockStart', 'TimelockExpiry', 'ScriptPubkey', 'ScriptAll', 'ScriptAny', 'ScriptNOfK', 'DRepVotingThresholds', 'PoolVotingThresholds']
+
+GENERIC_TYPES = [
+    "TransactionInput", "ExUnits", "UnitInterval", "ExUnitPrices", "ProtocolVersion", "Redeemer", "ConstrPlutusData", "Vkeywitness", "BootstrapWitness",
+    "Credential", "DRep", "Anchor", "GovernanceActionId", "VotingProcedure", "Voter", "PoolMetadata", "Update", "TransactionUnspentOutput",
+    "StakeRegistration", "StakeDeregistration", "StakeDelegation", "PoolRegistration", "PoolRetirement", "GenesisKeyDelegation", "MoveInstantaneousRewardsCert",
+    "CommitteeHotAuth", "CommitteeColdResign", "DRepRegistration", "DRepDeregistration", "DRepUpdate", "StakeAndVoteDelegation", "StakeRegistrationAndDelegation",
+    "StakeVoteRegistrationAndDelegation", "VoteDelegation", "VoteRegistrationAndDelegation", "Certificate",
+    "VotingProposal", "ParameterChangeAction", "HardForkInitiationAction", "TreasuryWithdrawalsAction", "NoConfidenceAction", "UpdateCommitteeAction", "NewConstitutionAction",
+    "InfoAction", "GovernanceAction", "Constitution", "Transaction", "SingleHostAddr", "SingleHostName", "MultiHostName", "Relay", "PoolParams",
+    "DataOption", "ScriptRef", "MoveInstantaneousReward", "Header", "OperationalCert", "HeaderBody", "TimelockStart", "TimelockExpiry", "ScriptPubkey", "ScriptAll", "ScriptAny", "ScriptNOfK",
+    "DRepVotingThresholds", "PoolVotingThresholds", "Nonce", "VRFCert", "Value", "TransactionOutput",
+]
+
+
+def tokens_equal(E, pc, a, b):
+    """(bool structure_equal, [z3 equalities to prove])"""
+    if len(a) != len(b):
+        return False, []
+    eqs = []
+    for x, y in zip(a, b):
+        if x[0] != y[0]:
+            return False, []
+        for u, v in zip(x[1:], y[1:]):
+            if isinstance(u, z3.ExprRef) or isinstance(v, z3.ExprRef):
+                try:
+                    eqs.append(u == v)
+                except Exception:
+                    return False, []
+            elif u != v:
+                return False, []
+    return True, eqs
+
+
+def indefinite_variant(toks):
+    """the same item with its outermost array/map (after leading tags) written with indefinite length, or None"""
+    p = 0
+    while p < len(toks) and toks[p][0] == "tag":
+        p += 1
+    if p >= len(toks) or toks[p][0] not in ("array", "map") or toks[p][1] is None:
+        return None
+    end = CM.item_end(toks, p)
+    if end is None:
+        return None
+    return toks[:p] + [(toks[p][0], None)] + toks[p + 1:end] + [("special", "Break", None)] + toks[end:]
+
+
+def generic_roundtrip(ctx, tys, name, claim=None):
+    P = ctx.P
+    per_type = {}
+    ob = Obligation(ctx, name, "every variant / optional-field combination the serializer's own MIR distinguishes on a lazily initialised value; nested values opaque items; "
+                    "definite and outermost-indefinite encodings", ["<T as Serialize>::serialize", "<T as Deserialize>::deserialize for T in the covered list"],
+                    fallback_native="e2n_c01_struct_roundtrip")
+    ob.cross_every = 16
+    agg = Engine(P)
+    covered, skipped = [], {}
+    SENT = ("uint", z3.IntVal(424242))
+    for ty in tys:
+        try:
+            local = Obligation(ctx, name + ":" + ty)
+            E = Engine(P, max_loop=12)
+            CM.install(E, target=ty)
+            outs = E.explore("<%s as cbor_event::se::Serialize>::serialize" % ty, lambda: [R(VLazy("v", ty), "self"), R(CM.VSer(), "ser")], max_paths=400)
+            npaths = 0
+            for o in outs:
+                if o.kind == "bound":
+                    continue
+                if o.kind != "return" or o.value.variant != "Ok":
+                    continue            # values the serializer itself refuses (e.g. unknown index) are not constructible
+                toks = list(VM.deref(E, o.args[1]).tokens)
+                if CM.item_end(toks, 0) != len(toks):
+                    local.violation("%s: emitted tokens are not one well-formed item: %s" % (ty, [(t[0], t[1] if t[0] in ("array", "map", "tag") else "") for t in toks])); continue
+                if len(toks) == 1 and toks[0][0] == "item":
+                    continue            # a dispatching wrapper: the bytes are those of the inner type, which is covered on its own
+                npaths += 1
+                for variant, stream in (("definite", toks), ("indefinite", indefinite_variant(toks))):
+                    if stream is None:
+                        continue
+                    D = Engine(P, max_loop=40)
+                    CM.install(D, target=ty)
+                    D.base = list(o.pc)
+                    douts = D.explore("<%s as Deserialize>::deserialize" % ty, lambda: [R(CM.VDe(stream + [SENT]), "raw")], max_paths=200)
+                    good = [d for d in douts if d.kind == "return" and d.value.variant == "Ok"]
+                    if len(good) != 1 or len(douts) != 1:
+                        local.violation("%s (%s encoding %s): decoding does not succeed deterministically: %s" % (ty, variant, [(t[0], t[1] if t[0] in ("array", "map", "tag") else "") for t in stream][:8],
+                                                                                                                  [(d.kind, d.msg[:60], d.value.variant if d.value is not None else None) for d in douts][:3])); continue
+                    d = good[0]
+                    de = VM.deref(D, d.args[0])
+                    if de.pos != len(stream):
+                        local.violation("%s (%s encoding): decoder stops at token %d of %d — it does not consume exactly its own item" % (ty, variant, de.pos, len(stream))); continue
+                    # re-encode the decoded value
+                    D.enter(d)
+                    S2 = Engine(P, max_loop=12)
+                    CM.install(S2, target=ty)
+                    S2.base = list(d.pc)
+                    S2.lazy_ident_seed = dict(d.idents)
+                    dec = d.value.fields[0]
+                    def mk2(dec=dec, S2=S2, d=d):
+                        S2.lazy_ident.update(d.idents)
+                        return [R(clone(dec), "self"), R(CM.VSer(), "ser")]
+                    routs = [r for r in S2.explore("<%s as cbor_event::se::Serialize>::serialize" % ty, mk2, max_paths=200) if r.kind == "return" and r.value.variant == "Ok"]
+                    if len(routs) != 1:
+                        local.violation("%s: the decoded value does not re-encode deterministically (%d ways)" % (ty, len(routs))); continue
+                    t2 = VM.deref(S2, routs[0].args[1]).tokens
+                    same, eqs = tokens_equal(S2, routs[0].pc, toks, t2)
+                    if not same:
+                        local.violation("%s (%s encoding): decode then encode gives a different structure: %s vs %s" % (ty, variant, [t[0] for t in toks], [t[0] for t in t2]))
+                    elif eqs:
+                        local.vc("%s (%s encoding): decode then encode gives the same tokens" % (ty, variant), routs[0].pc, z3.And(eqs))
+                    agg.stats["paths"] += D.stats["paths"] + S2.stats["paths"]
+            agg.stats["paths"] += E.stats["paths"]; agg.stats["feasibility_queries"] += E.stats["feasibility_queries"]; agg.stats["functions"] |= E.stats["functions"]
+            if npaths == 0:
+                skipped[ty] = "no serializer path"
+                continue
+            local._collect()
+            if claim is not None and ty not in claim:
+                if local.problems:
+                    skipped[ty] = "not claimed (the token model cannot decide this type): " + local.problems[0][1][:120]
+                else:
+                    covered.append("%s(%d, unclaimed)" % (ty, npaths))
+                continue
+            covered.append("%s(%d)" % (ty, npaths))
+            per_type[ty] = [p[1] for p in local.problems]
+            ob.problems += local.problems
+            ob.queries += local.queries; ob.solver_s += local.solver_s; ob.assertions += local.assertions; ob.cross_ok += local.cross_ok; ob.cross_unknown += local.cross_unknown
+        except Unsupported as e:
+            skipped[ty] = str(e)[:160]
+        except PathAbort as e:
+            skipped[ty] = "path abort " + e.msg[:100]
+        except (AttributeError, TypeError, IndexError, KeyError, ValueError) as e:
+            skipped[ty] = "engine error %r" % (e,)
+    ob.bound += " Covered types (serializer paths): " + ", ".join(covered) + ". Outside the engine's reach (not claimed): " + ", ".join(sorted(skipped))
+    ctx.log("  [E2] generic round trip covered %d types; skipped: %s" % (len(covered), {k: v[:90] for k, v in skipped.items()}))
+    ob.expected_covered = covered
+    ob.per_type = per_type
+    return ob, agg, covered, skipped
